@@ -188,9 +188,14 @@ def run(ctx, rep):
             if not decided:
                 continue
             for st_ in bl["s"]:
-                if st_["rv"]["r"] != "ref":
+                # a recorder is selected by re-borrowing it (&*fixed_output) or by moving the reference (Some(fixed_output))
+                if st_["rv"]["r"] == "ref":
+                    sel = st_["rv"]["p"]
+                elif st_["rv"]["r"] == "use" and op_place(st_["rv"]["o"]) is not None and "BitRecorder" in eb.local_ty(op_place(st_["rv"]["o"])["l"]):
+                    sel = op_place(st_["rv"]["o"])
+                else:
                     continue
-                fl = place_fields(root_place(eb, st_["rv"]["p"]))
+                fl = place_fields(root_place(eb, sel) or {"p": []})
                 rec = [x for x in fl if x in ("fixed_output", "lpc_output")]
                 if not rec:
                     continue
@@ -270,34 +275,43 @@ def run(ctx, rep):
                 rv = s["rv"]
                 if rv["r"] != "agg" or rv["adt"] != "encode::Correlated":
                     continue
-                arm = _arm(pf.get(bi))
-                slots = []
-                for k, x in origins(cb, rv["ops"][1]):
-                    if k == "agg":
-                        for o in x["ops"]:
-                            src = None
-                            depth = "plain"
-                            for kk, ch in origins(cb, o):
-                                if kk == "agg" and ch["adt"] == "encode::CorrelatedChannel":
-                                    sl = backward_slice(cb, ch["ops"][0])
-                                    if "difference_samples" in sl["fields"]:
-                                        src = "difference"
-                                    elif "average_samples" in sl["fields"]:
-                                        src = "average"
-                                    elif "[c0/2]" in sl["elems"]:
-                                        src = "left"
-                                    elif "[c1/2]" in sl["elems"]:
-                                        src = "right"
-                                    bs = backward_slice(cb, ch["ops"][1])
-                                    depth = "plus1" if any(re.search(r"checked_add$", callee_name(c)) for c in bs["calls"]) else "plain"
-                                elif kk == "call" and re.search(r"CorrelatedChannel::independent$", strip_generics(callee_name(ch))):
-                                    sl = backward_slice(cb, ch["a"][1])
-                                    src = "left" if "[c0/2]" in sl["elems"] else ("right" if "[c1/2]" in sl["elems"] else None)
-                            slots.append((src, depth))
-                nrows += 1
-                # the header's channel_assignment operand is the matched value itself
-                rep.check("C01.corr", "fast search: %s emits %s" % (arm, EXPECT.get(arm)), arm in EXPECT and slots == EXPECT[arm], cb.loc(s["sp"]), str(slots),
-                          "channel assignment %s is paired with subframes %s, the decoder expects %s" % (arm, slots, EXPECT.get(arm)))
+                arrs = [x for k, x in origins(cb, rv["ops"][1]) if k == "agg"]
+                arm0 = _arm(pf.get(bi))
+                if arm0 is None and len(arrs) > 1:
+                    # one Correlated { assignment, channels: match assignment { .. } }: each channel pair is judged on the
+                    # edge of the assignment it was built for
+                    where = {id(st2["rv"]): bj for bj, bl2 in enumerate(cb.blocks) for st2 in bl2["s"]}
+                    groups = [(_arm(pf.get(where.get(id(x)))), [x]) for x in arrs]
+                else:
+                    groups = [(arm0, arrs)]
+                for arm, arrs_ in groups:
+                    slots = []
+                    for x in arrs_:
+                        if True:
+                            for o in x["ops"]:
+                                src = None
+                                depth = "plain"
+                                for kk, ch in origins(cb, o):
+                                    if kk == "agg" and ch["adt"] == "encode::CorrelatedChannel":
+                                        sl = backward_slice(cb, ch["ops"][0])
+                                        if "difference_samples" in sl["fields"]:
+                                            src = "difference"
+                                        elif "average_samples" in sl["fields"]:
+                                            src = "average"
+                                        elif "[c0/2]" in sl["elems"]:
+                                            src = "left"
+                                        elif "[c1/2]" in sl["elems"]:
+                                            src = "right"
+                                        bs = backward_slice(cb, ch["ops"][1])
+                                        depth = "plus1" if any(re.search(r"checked_add$", callee_name(c)) for c in bs["calls"]) else "plain"
+                                    elif kk == "call" and re.search(r"CorrelatedChannel::independent$", strip_generics(callee_name(ch))):
+                                        sl = backward_slice(cb, ch["a"][1])
+                                        src = "left" if "[c0/2]" in sl["elems"] else ("right" if "[c1/2]" in sl["elems"] else None)
+                                slots.append((src, depth))
+                    nrows += 1
+                    # the header's channel_assignment operand is the matched value itself
+                    rep.check("C01.corr", "fast search: %s emits %s" % (arm, EXPECT.get(arm)), arm in EXPECT and slots == EXPECT[arm], cb.loc(s["sp"]), str(slots),
+                              "channel assignment %s is paired with subframes %s, the decoder expects %s" % (arm, slots, EXPECT.get(arm)))
     xb = anchor(F, rep, "C01.corr", "encode::correlate_channels_exhaustive")
     if xb is not None:
         pf = ok.path_facts(xb)
